@@ -36,17 +36,30 @@ pub struct Case {
     /// extra chords i -> j (gate "x{k}") besides the ring
     pub chords: Vec<(u8, u8)>,
     pub ttl: u8,
+    /// synchronous modules schedule / send a message from at_sim_end (never dispatched in this run; must not leak
+    /// into a later simulation of the same process)
+    #[serde(default)]
+    pub emit_at_end: bool,
 }
 
 pub struct C04;
 
 struct SyncMod {
+    emit_at_end: bool,
     draws: u8,
     ttl: u8,
     outs: usize,
 }
 
 impl Module for SyncMod {
+    fn at_sim_end(&mut self) -> Result<(), RuntimeError> {
+        if self.emit_at_end {
+            net::log("emit-at-end", 0, 0);
+            schedule_in(Message::default().kind(1).id(999), Duration::from_millis(7));
+            send(Message::default().kind(2).id(998).src([3, 0, 0, 0, 0, 0]), "out");
+        }
+        Ok(())
+    }
     fn at_sim_start(&mut self, _: usize) {
         let d: u64 = random::<u64>() % 5_000;
         net::log("start-draw", d as i64, 0);
@@ -147,6 +160,7 @@ pub fn trace_of(case: &Case, seed: u64) -> Trace {
             Kind::Sync { draws } => sim.node(
                 format!("n{i}"),
                 SyncMod {
+                    emit_at_end: case.emit_at_end,
                     draws: *draws % 4,
                     ttl: case.ttl % 10,
                     outs,
@@ -299,6 +313,9 @@ pub fn run_case(case: &Case) -> Result<(bool, Vec<&'static str>), Failure> {
     if has_async {
         labels.push("async-module");
     }
+    if t1.log.iter().any(|r| r.1 == "emit-at-end") {
+        labels.push("emission-during-tear-down");
+    }
     Ok((has_draw && has_select && has_jitter, labels))
 }
 
@@ -347,14 +364,16 @@ impl Prop for C04 {
             0u16..3000,
             proptest::collection::vec((0u8..6, 0u8..6), 0..4),
             0u8..10,
+            proptest::bool::weighted(0.3),
         )
-            .prop_map(|(seed, mods, jitter_us, latency_us, chords, ttl)| Case {
+            .prop_map(|(seed, mods, jitter_us, latency_us, chords, ttl, emit_at_end)| Case {
                 seed,
                 mods,
                 jitter_us,
                 latency_us,
                 chords,
                 ttl,
+                emit_at_end,
             })
             .boxed()
     }
